@@ -416,7 +416,7 @@ def run(ctx):
                 ctx.add('compositions_skipped_for_time')
                 break
             rng = gen.rng_for('C03comp', ctx.seed, c)
-            comp = workloads.Composition(rng, force_all_actions=True)
+            comp = workloads.Composition(rng, force_all_actions=True, dense=(c % 4 == 1))
             holder = {}
             env = comp.build(lambda rng=None: holder['s'])
             deterministic = not ({'move_obstacles', 'teleport'} & {t['name'] for t in comp.transitions})
@@ -504,7 +504,7 @@ def replay(ctx, kind, payload):
             env = compose.factory_env(data)
         elif 'comp_seed' in payload:
             crng = gen.rng_for('C03comp', payload['comp_seed'][0], payload['comp_seed'][1])
-            comp = workloads.Composition(crng, force_all_actions=True)
+            comp = workloads.Composition(crng, force_all_actions=True, dense=(payload['comp_seed'][1] % 4 == 1))
             st = enc.state_from_json(payload['state'])
             env = comp.build(lambda rng=None: st)
         elif 'state' in payload:
